@@ -58,6 +58,8 @@ type Interp struct {
 	Roles  map[string]Role
 	sums   map[string]*Result // summaries of helper methods (not evaluators, not role functions)
 	busy   map[string]bool
+	// the three fields of resultTuple by position (value, flag, end), whatever they are called: name -> v | b | end
+	tupleField map[string]string
 }
 
 func New(v *variants.Variant) (*Interp, error) {
@@ -69,7 +71,15 @@ func New(v *variants.Variant) (*Interp, error) {
 	if !ok {
 		return nil, fmt.Errorf("parser is not a named type")
 	}
-	in := &Interp{V: v, Info: v.Info, Parser: named, Roles: map[string]Role{}}
+	in := &Interp{V: v, Info: v.Info, Parser: named, Roles: map[string]Role{}, tupleField: map[string]string{}}
+	if rt := v.Pkg.Scope().Lookup("resultTuple"); rt != nil {
+		if st, ok := rt.Type().Underlying().(*types.Struct); ok {
+			canon := []string{"v", "b", "end"}
+			for i := 0; i < st.NumFields() && i < len(canon); i++ {
+				in.tupleField[st.Field(i).Name()] = canon[i]
+			}
+		}
+	}
 	for i := 0; i < named.NumMethods(); i++ {
 		m := named.Method(i)
 		if r, ok := fixedRoles[m.Name()]; ok {
@@ -104,6 +114,37 @@ func (in *Interp) isParserPtr(t types.Type) bool {
 		return false
 	}
 	return types.Identical(p.Elem(), in.Parser)
+}
+
+// purePredicate: a call p.m() of a parser method without parameters whose body is a single `return <expr>` that
+// only reads (no calls but len): a test given a name (p.atEOF()). Returns the returned expression, to be evaluated in
+// place of the call (the method's receiver is a *parser like the caller's).
+func (in *Interp) purePredicate(c *ast.CallExpr) ast.Expr {
+	sel, ok := c.Fun.(*ast.SelectorExpr)
+	if !ok || !in.isP(sel.X) || len(c.Args) != 0 {
+		return nil
+	}
+	fd := in.V.Func("parser", sel.Sel.Name)
+	if fd == nil || fd.Body == nil || len(fd.Body.List) != 1 || (fd.Type.Params != nil && len(fd.Type.Params.List) > 0) {
+		return nil
+	}
+	rs, ok := fd.Body.List[0].(*ast.ReturnStmt)
+	if !ok || len(rs.Results) != 1 {
+		return nil
+	}
+	pure := true
+	ast.Inspect(rs.Results[0], func(n ast.Node) bool {
+		if ce, ok := n.(*ast.CallExpr); ok {
+			if id, isID := ce.Fun.(*ast.Ident); !isID || (id.Name != "len" && id.Name != "cap") {
+				pure = false
+			}
+		}
+		return true
+	})
+	if !pure {
+		return nil
+	}
+	return rs.Results[0]
 }
 
 // isP reports whether e is an identifier of type *parser.
@@ -543,6 +584,9 @@ func (r *run) effectful(c *ast.CallExpr) bool {
 	case RoleNone:
 		if r.isRun(c) {
 			return true
+		}
+		if r.in.purePredicate(c) != nil {
+			return false
 		}
 		if sel, ok := c.Fun.(*ast.SelectorExpr); ok && r.in.isP(sel.X) {
 			return true // unknown parser method
@@ -1171,7 +1215,11 @@ func (r *run) eval(s *State, e ast.Expr) Val {
 			}
 			return Val{K: "spfield", A: base.A, B: x.Sel.Name}
 		case "tuple":
-			if f, ok := base.F[x.Sel.Name]; ok {
+			name := x.Sel.Name
+			if c, known := in.tupleField[name]; known {
+				name = c
+			}
+			if f, ok := base.F[name]; ok {
 				return f
 			}
 		case "node":
@@ -1257,6 +1305,9 @@ func (r *run) eval(s *State, e ast.Expr) Val {
 		}
 		return Unk(in.exprText(x))
 	case *ast.CallExpr:
+		if b := in.purePredicate(x); b != nil {
+			return r.eval(s, b)
+		}
 		if r.effectful(x) {
 			s.undecided("effectful call %s in expression position", in.exprText(x))
 			return Unk("call")
@@ -1322,7 +1373,11 @@ func (r *run) eval(s *State, e ast.Expr) Val {
 			names := []string{"v", "b", "end"}
 			for i, el := range x.Elts {
 				if kv, ok := el.(*ast.KeyValueExpr); ok {
-					f[in.exprText(kv.Key)] = r.eval(s, kv.Value)
+					k := in.exprText(kv.Key)
+					if c, known := in.tupleField[k]; known {
+						k = c
+					}
+					f[k] = r.eval(s, kv.Value)
 				} else if i < len(names) {
 					f[names[i]] = r.eval(s, el)
 				}
@@ -1398,6 +1453,10 @@ func (r *run) cond(s *State, e ast.Expr) Val {
 		return Bool(v)
 	}
 	switch x := e.(type) {
+	case *ast.CallExpr:
+		if b := r.in.purePredicate(x); b != nil {
+			return r.cond(s, b)
+		}
 	case *ast.ParenExpr:
 		return r.cond(s, x.X)
 	case *ast.UnaryExpr:
@@ -1440,6 +1499,10 @@ func (r *run) cond(s *State, e ast.Expr) Val {
 func (r *run) falsityImpliesNotEOF(s *State, e ast.Expr) bool {
 	in := r.in
 	switch x := e.(type) {
+	case *ast.CallExpr:
+		if b := in.purePredicate(x); b != nil {
+			return r.falsityImpliesNotEOF(s, b)
+		}
 	case *ast.ParenExpr:
 		return r.falsityImpliesNotEOF(s, x.X)
 	case *ast.BinaryExpr:
@@ -1478,6 +1541,10 @@ func (r *run) isCurrentWidth(s *State, e ast.Expr) bool {
 func (r *run) truthImpliesNotEOF(s *State, e ast.Expr) bool {
 	in := r.in
 	switch x := e.(type) {
+	case *ast.CallExpr:
+		if b := in.purePredicate(x); b != nil {
+			return r.truthImpliesNotEOF(s, b)
+		}
 	case *ast.ParenExpr:
 		return r.truthImpliesNotEOF(s, x.X)
 	case *ast.UnaryExpr:
